@@ -289,9 +289,9 @@ class InterpolatedLinearOperator(LinearOperator):
             batch_offset = torch.arange(0, batch_size, dtype=torch.long, device=self.device).view(*batch_shape)
             batch_offset.unsqueeze_(-1).unsqueeze_(-1).mul_(n_inducing)
             batched_right_interp_indices = self.right_interp_indices
-            batched_left_interp_indices = (self.left_interp_indices + batch_offset).view(-1)
+            batched_left_interp_indices = (self.left_interp_indices + batch_offset).reshape(-1)
         else:
-            batched_left_interp_indices = self.left_interp_indices.view(-1)
+            batched_left_interp_indices = self.left_interp_indices.reshape(-1)
 
         flattened_right_interp_right_res = right_interp_right_res.view(batch_size * n_inducing, n_vecs)
         selected_right_vals = flattened_right_interp_right_res.index_select(0, batched_left_interp_indices)
@@ -306,9 +306,9 @@ class InterpolatedLinearOperator(LinearOperator):
         if len(batch_shape):
             batch_offset = torch.arange(0, batch_size, dtype=torch.long, device=self.device).view(*batch_shape)
             batch_offset.unsqueeze_(-1).unsqueeze_(-1).mul_(n_inducing)
-            batched_right_interp_indices = (self.right_interp_indices + batch_offset).view(-1)
+            batched_right_interp_indices = (self.right_interp_indices + batch_offset).reshape(-1)
         else:
-            batched_right_interp_indices = self.right_interp_indices.view(-1)
+            batched_right_interp_indices = self.right_interp_indices.reshape(-1)
 
         flattened_left_interp_left_res = left_interp_left_res.view(batch_size * n_inducing, n_vecs)
         selected_left_vals = flattened_left_interp_left_res.index_select(0, batched_right_interp_indices)
